@@ -186,6 +186,30 @@ theorem mtdec_end_safe (s s' : State) (hs : step s .endJoin = some s') (hp : s'.
     · cases hs; cases hp
     · exact ⟨j, hpc, Nat.le_of_not_lt hlen⟩
 
+/-- **Memory accounting (statement, not proved; checked at run time).** coder->mem_in_use is the sum of `memThr` over the
+    workers that own an outbuf, and together with the queue's outbuf memory it never exceeds memlimit_threading. The trace
+    inclusion compares the model's `memInUse` with the implementation's counter at every Block start (event 109) and the
+    can-start decision at every read_output_and_wait exit (event 134). -/
+def mtdec_mem_statement : Prop :=
+  ∀ (cfg : Cfg) (blocks : List Block), WFInput blocks → ∀ s, Reachable cfg blocks s → exitCode s = none →
+    s.memInUse = ((List.range s.workers.length).filter (fun i => (getW s i).hasOut)).foldl
+      (fun a i => a + (blk s (getW s i).blk).memThr) 0 ∧
+    s.memInUse + outqMem s ≤ cfg.memLimit
+
+/-- **Truncated input (statement, not proved in Lean; the direct oracle checks it on every truncated file).** If the
+    application stops supplying input in the middle of a Block and keeps calling, only finitely many calls return LZMA_OK with
+    progress; after that the main thread no longer waits (`stalled`) and lzma_code's wrapper returns LZMA_BUF_ERROR. The
+    wrapper's no-progress counter is not part of this model (C11). The model-level half that IS proved is
+    `mtdec_no_lost_wakeup`: when the last worker has consumed and published all it was given, the main thread does not wait. -/
+def mtdec_truncated_input_statement : Prop :=
+  ∀ (cfg : Cfg) (blocks : List Block), WFInput blocks → ∀ s, Reachable cfg blocks s →
+    ∀ k w, s.pc = .rowWait k w → s.mwoken = false → stalled s = false
+
+/-- The part of the truncated-input statement that follows from the wake-up invariant. -/
+theorem mtdec_truncated_input_partial : mtdec_truncated_input_statement := by
+  intro cfg blocks hwf s hr k w hp hm
+  exact ((mtdec_no_lost_wakeup cfg blocks hwf s hr).2 k w hp hm).2.2.1
+
 -- ---------------------------------------------------------------------------------------------
 -- non-vacuity: the hypotheses are satisfiable and multi-Block states with several workers in flight are reachable
 -- ---------------------------------------------------------------------------------------------
